@@ -778,7 +778,7 @@ Hypothesis Hrelink_orph : relink_orph_stmt.
 Lemma chain_fuel_bound s l :
   AInv key_cfg (keyf s) -> NoDup l -> (forall o, o ∈ l -> is_Some (kheap s !! o)) ->
   (length l < chain_fuel s)%nat.
-Proof.
+Proof using Hk_fact.
   intros HA Hnd Hin. unfold chain_fuel. destruct (Hk_fact (keyf s) HA) as (_ & _ & Hsz & _).
   pose proof (nodup_length_le_size (kheap s) l Hnd Hin) as Hle. unfold kheap in Hle. lia.
 Qed.
@@ -789,7 +789,7 @@ Lemma put_new (m : gmap bytes bytes) s ch k v :
   find s k = Ok None -> (forall vo, ~ has_rec s k vo) ->
   exists s', put0 s k v = Ok s' /\ Inv s' /\ represents s' (<[k := v]> m) /\
              kt s' = kt s /\ nb (hx s') = nb (hx s).
-Proof.
+Proof using Hk_new Hv_new.
   intros [Hc Hl] Hrep Hkwf Hvwf Hf Hno.
   apply core_iff in Hc as (HAk & HAv & Hbm & HP).
   assert (Hnew : forall o r0, kheap s !! o = Some r0 -> k_key r0 <> k).
@@ -831,7 +831,7 @@ Qed.
 Lemma chain_decomp kh h l1 o l2 r :
   chain kh h (l1 ++ o :: l2) -> kh !! o = Some r ->
   seg kh h l1 o /\ o <> 0 /\ chain kh (k_next r) l2.
-Proof.
+Proof using Type.
   intros Hc Hr. apply seg_split in Hc as (m0 & H1 & H2).
   apply seg_cons_inv in H2 as (-> & Hnz & r0 & Hr0 & H2).
   assert (r0 = r) as -> by congruence. auto.
@@ -844,7 +844,8 @@ Lemma put_existing (m : gmap bytes bytes) s ch k v off r l1 l2 :
   ch (home s k) = l1 ++ off :: l2 ->
   exists s', put0 s k v = Ok s' /\ Inv s' /\ represents s' (<[k := v]> m) /\
              kt s' = kt s /\ nb (hx s') = nb (hx s).
-Proof.
+Proof using Hk_old Hv_old Hk_fact Hrelink.
+  clear Hk_new Hk_del Hv_new Hv_del Hv_fact Hfind Hfprev Hrelink_orph.
   intros [Hc Hl] Hrep Hkwf Hvwf Hf Hr Hkey Hch.
   apply core_iff in Hc as (HAk & HAv & Hbm & HP).
   unfold put0. rewrite Hf. cbn [rbind]. change (bucket s k) with (home s k).
@@ -972,7 +973,8 @@ Proof.
 Qed.
 
 Theorem put_ok : put_stmt.
-Proof.
+Proof using Hk_new Hv_new Hk_old Hv_old Hk_fact Hrelink Hfind.
+  clear Hk_del Hv_del Hv_fact Hfprev Hrelink_orph.
   intros s0 m k v [ch Hs] Hrep Hkwf Hvwf. rewrite put_put0.
   apply sinvo_touch in Hs.
   change (kt s0) with (kt (touch s0)) in *. change (nb (hx s0)) with (nb (hx (touch s0))).
@@ -982,6 +984,207 @@ Proof.
   - intros off Hoff. discriminate.
   - exact (put_new m s ch k v Hs Hrep Hkwf Hvwf Hf Hno).
   - exact (put_existing m s ch k v off r l1 l2 Hs Hrep Hkwf Hvwf Hf Hr Hkey Hch).
+Qed.
+
+
+(** *** [del]: the final step, freeing the orphan and its value *)
+Lemma del_finish (m : gmap bytes bytes) s1 ch1 off r :
+  sinvo s1 ch1 (Some off) -> kheap s1 !! off = Some r -> represents s1 m ->
+  exists vf kf,
+    delete_piece val_cfg (valf s1) (k_voff r) = Ok vf /\
+    delete_piece key_cfg (keyf s1) off = Ok kf /\
+    Inv (Store (kt s1) (count_down (hx s1)) kf vf (dirty s1) (synced s1)) /\
+    represents (Store (kt s1) (count_down (hx s1)) kf vf (dirty s1) (synced s1)) (delete (k_key r) m).
+Proof using Hk_del Hv_del.
+  clear Hk_new Hk_old Hk_fact Hv_new Hv_old Hv_fact Hfind Hfprev Hrelink Hrelink_orph.
+  intros [Hc Hl] Hr Hrep.
+  apply core_iff in Hc as (HAk & HAv & Hbm & HP).
+  destruct (cp_val HP off r Hr) as [v0 Hv0].
+  destruct (Hv_del (valf s1) (k_voff r) v0 HAv Hv0) as (vf & Hdv & HAv' & Huv & _).
+  destruct (Hk_del (keyf s1) off r HAk Hr) as (kf & Hdk & HAk' & Huk & _).
+  exists vf, kf. split; [exact Hdv|]. split; [exact Hdk|].
+  destruct (coreP_remove _ _ _ _ _ _ _ _ HP Hr) as (Hpos & HP').
+  destruct (cp_orph HP off eq_refl) as (_ & Hnot).
+  split.
+  - exists ch1. split.
+    + apply core_iff. cbn [keyf valf hx kt].
+      split; [exact HAk'|]. split; [exact HAv'|]. split; [apply count_down_bitmap_ok; exact Hbm|].
+      unfold kheap, vheap. cbn [keyf valf]. rewrite Huk, Huv.
+      replace (count (count_down (hx s1))) with (count (hx s1) - 1); [exact HP'|].
+      unfold count_down. cbn [count]. destruct (N.ltb_spec 0 (count (hx s1))); [reflexivity | lia].
+    + intros b Hb. unfold links_ok, kheap. cbn [keyf hx]. rewrite Huk, head_at_count_down.
+      eapply seg_frame_eq; [exact (Hl b Hb)|]. intros o Ho.
+      rewrite lookup_delete_ne; [reflexivity|]. intros <-. exact (Hnot b Hb Ho).
+  - apply represents_reprP. unfold kheap, vheap. cbn [keyf valf]. rewrite Huk, Huv.
+    exact (reprP_remove m _ _ _ _ _ _ _ off r HP Hrep Hr).
+Qed.
+
+(** *** [del]: the unlink step.  The record at [off] leaves its chain and becomes the orphan. *)
+Lemma del_unlink (m : gmap bytes bytes) s ch b off r l1 l2 :
+  sinvo s ch None -> represents s m -> b < nb (hx s) ->
+  kheap s !! off = Some r -> ch b = l1 ++ off :: l2 ->
+  exists s1 ch1, unlink0 s b r (List.last l1 0) = Ok s1 /\
+    sinvo s1 ch1 (Some off) /\ kheap s1 !! off = Some r /\ represents s1 m /\
+    kt s1 = kt s /\ nb (hx s1) = nb (hx s).
+Proof using Hk_old Hk_fact Hfprev Hrelink_orph.
+  clear Hk_new Hk_del Hv_new Hv_old Hv_del Hv_fact Hfind Hrelink.
+  intros [Hc Hl] Hrep Hb Hr Hch.
+  apply core_iff in Hc as (HAk & HAv & Hbm & HP).
+  assert (Hnd0 : NoDup (l1 ++ off :: l2)) by (rewrite <- Hch; exact (cp_nodup HP b Hb)).
+  pose proof (Hl b Hb) as Hlb. unfold links_ok in Hlb. rewrite Hch in Hlb.
+  destruct (chain_decomp _ _ _ _ _ _ Hlb Hr) as (Hseg1 & Hoffnz & Hseg2).
+  pose proof (coreP_unlink _ _ _ _ _ _ _ _ _ _ HP Hb Hch) as HPu.
+  unfold unlink0.
+  destruct (snoc_case l1) as [-> | (l1' & p & ->)].
+  - (* [off] is the head of the bucket *)
+    cbn [List.last]. rewrite N.eqb_refl.
+    exists (set_hx s (write_head (hx s) b (k_next r))), (upd ch b l2).
+    split; [reflexivity|].
+    split; [|split; [exact Hr | split; [exact Hrep | split; reflexivity]]].
+    split.
+    + apply core_iff. cbn [keyf valf hx kt set_hx].
+      split; [exact HAk|]. split; [exact HAv|].
+      split; [apply write_head_bitmap_ok; [exact Hbm | exact Hb]|]. exact HPu.
+    + intros b' Hb'. unfold links_ok, kheap. cbn [keyf hx set_hx]. rewrite write_head_head_at.
+      destruct (N.eqb_spec b' b) as [->|Hne].
+      * rewrite upd_eq. exact Hseg2.
+      * rewrite upd_ne by exact Hne. exact (Hl b' Hb').
+  - (* [off] follows [p]: rewrite [p] with the link of [off] *)
+    rewrite last_last.
+    apply seg_split in Hseg1 as (m0 & Hs1 & Hs2).
+    apply seg_cons_inv in Hs2 as (-> & Hpnz & pr & Hpr & Hs2). apply seg_nil_inv in Hs2.
+    destruct (N.eqb_spec p 0) as [Hp0|_]; [contradiction|].
+    rewrite (read_krec_ok s p pr Hpr). cbn [rbind].
+    set (pr' := KRec (k_key pr) (k_voff pr) (k_next r)).
+    destruct (Hk_old (keyf s) (krec_need pr') p pr pr' HAk (krec_need_pos _) Hpr)
+      as (kf & p' & ksz & Hwk & HAk' & Huk & Hfr & Hp'nz & _).
+    rewrite Hwk. cbn [rbind].
+    fold (kheap s) in Huk, Hfr.
+    set (kh' := <[p' := pr']> (delete p (kheap s))) in Huk |- *.
+    set (s' := set_keyf s kf).
+    (* the positions of [p] and [off] *)
+    rewrite <- app_assoc in Hnd0. cbn [app] in Hnd0.
+    apply NoDup_app in Hnd0 as (Hnd1 & Hnd12 & Hnd2).
+    apply NoDup_cons in Hnd2 as (Hp2 & Hnd2).
+    assert (Hp1 : p ∉ l1').
+    { intros Hin. apply (Hnd12 p Hin). apply elem_of_cons. left. reflexivity. }
+    assert (Hpoff : p <> off) by (intros ->; apply Hp2; apply elem_of_cons; left; reflexivity).
+    assert (Hpl2 : p ∉ l2) by (intros Hin; apply Hp2; apply elem_of_cons; right; exact Hin).
+    assert (Hpb : p ∈ ch b) by (rewrite Hch; set_solver).
+    set (chu := upd ch b ((l1' ++ [p]) ++ l2)) in *.
+    assert (Hchu : chu b = l1' ++ p :: l2).
+    { unfold chu. rewrite upd_eq, <- app_assoc. reflexivity. }
+    set (ch2 := upd chu b (l1' ++ p' :: l2)).
+    assert (HPm : coreP (kt s) (nb (hx s)) (count (hx s)) kh' (vheap s) ch2 (Some off)).
+    { apply (coreP_move _ _ _ _ (vheap s) (vheap s) chu (Some off) b l1' l2 p p' pr pr'
+               HPu Hb Hchu Hpr eq_refl Hfr).
+      - intros He. injection He as He. congruence.
+      - cbn [k_voff pr']. exact (cp_val HP p pr Hpr).
+      - intros; reflexivity.
+      - intros Hc. exfalso. apply Hc. reflexivity.
+      - cbn [k_voff pr']. intros v1 Hv1. exact (cp_vwf HP _ _ Hv1). }
+    assert (Hkh' : kheap s' = kh') by exact Huk.
+    assert (Hcore' : core s' ch2 (Some off)).
+    { apply core_iff. unfold s'. cbn [keyf valf hx kt set_keyf].
+      split; [exact HAk'|]. split; [exact HAv|]. split; [exact Hbm|].
+      unfold kheap at 1. cbn [keyf set_keyf]. rewrite Huk. exact HPm. }
+    assert (Hoff' : kheap s' !! off = Some r).
+    { rewrite Hkh'. unfold kh'.
+      rewrite lookup_move_keep; [exact Hr | exact Hfr | eexists; exact Hr | congruence]. }
+    assert (Hrep' : represents s' m).
+    { apply represents_reprP. rewrite Hkh'. change (vheap s') with (vheap s).
+      eapply reprP_ext; [|exact Hrep].
+      exact (hasP_move_same (kheap s) p p' pr pr' Hpr eq_refl eq_refl Hfr). }
+    assert (Hs1' : seg kh' (head_at (hx s) b) l1' p).
+    { apply seg_frame_move; [exact Hs1 | exact Hp1 | exact Hfr]. }
+    assert (Hs2' : chain kh' (k_next r) l2).
+    { apply seg_frame_move; [exact Hseg2 | exact Hpl2 | exact Hfr]. }
+    assert (Hnew' : chain kh' p' (p' :: l2)).
+    { apply seg_cons with pr'; [exact Hp'nz | apply lookup_move_new | exact Hs2']. }
+    assert (Hlo : forall b', b' < nb (hx s') -> b' <> b -> links_ok s' ch2 b').
+    { intros b' Hb' Hne. unfold links_ok. rewrite Hkh'. unfold ch2, chu.
+      rewrite !upd_ne by exact Hne.
+      apply seg_frame_move; [exact (Hl b' Hb') | | exact Hfr].
+      intros Hin. apply Hne. exact (cp_disjoint _ _ _ _ _ _ _ _ _ _ HP Hb' Hb Hin Hpb). }
+    destruct (N.eqb_spec p' p) as [Hpeq | Hpne].
+    + (* rewritten in place *)
+      exists s', ch2. split; [reflexivity|].
+      split; [|split; [exact Hoff' | split; [exact Hrep' | split; reflexivity]]].
+      split; [exact Hcore'|].
+      intros b' Hb'. destruct (decide (b' = b)) as [->|Hne]; [|exact (Hlo b' Hb' Hne)].
+      unfold links_ok. rewrite Hkh'. unfold ch2. rewrite upd_eq.
+      eapply seg_app; [exact Hs1'|]. rewrite <- Hpeq at 1. exact Hnew'.
+    + (* the predecessor moved: find its predecessor and re-link *)
+      assert (Hlen : (length l1' < chain_fuel s')%nat).
+      { apply chain_fuel_bound; [exact HAk' | exact Hnd1 |].
+        intros o Ho. rewrite Hkh'. apply (cp_in HPm b o Hb). unfold ch2. rewrite upd_eq. set_solver. }
+      assert (Hsegp : seg (kheap s') (head_at (hx s') b) l1' p) by (rewrite Hkh'; exact Hs1').
+      rewrite (Hfprev s' (head_at (hx s') b) l1' p (chain_fuel s') Hsegp Hpnz Hp1 Hlen).
+      cbn [rbind].
+      destruct (Hrelink_orph s' ch2 (Some off) b l1' p p' l2 (chain_fuel s') Hcore' Hlo Hb)
+        as (s'' & ch'' & Hrl & Hs'' & Hsh & Horph); [unfold ch2; apply upd_eq | | exact Hlen |].
+      { split; [exact Hsegp|]. split; [rewrite Hkh'; exact Hnew'|].
+        split; [|exact Hpnz]. rewrite Hkh'. unfold kh'.
+        rewrite lookup_insert_ne by congruence. apply lookup_delete. }
+      exists s'', ch''. split; [exact Hrl|]. split; [exact Hs''|].
+      split; [rewrite (Horph off eq_refl); exact Hoff'|].
+      split; [exact (represents_same_shape _ _ _ Hsh Hrep')|].
+      destruct Hsh as (Hkt & Hnb & _). rewrite Hkt, Hnb. split; reflexivity.
+Qed.
+
+Lemma del_none (m : gmap bytes bytes) s ch k :
+  sinvo s ch None -> represents s m -> find s k = Ok None -> (forall vo, ~ has_rec s k vo) ->
+  exists s', del0 s k = Ok (s', m !! k) /\ Inv s' /\ represents s' (delete k m) /\
+             kt s' = kt s /\ nb (hx s') = nb (hx s).
+Proof using Type.
+  intros Hs Hrep Hf Hno.
+  assert (m !! k = None) as Hmk.
+  { destruct (m !! k) as [v0|] eqn:E; [|reflexivity]. exfalso.
+    apply (Hrep k v0) in E as (vo & Hh & _). exact (Hno vo Hh). }
+  exists s. unfold del0. rewrite Hf. cbn [rbind]. rewrite Hmk.
+  split; [reflexivity|]. split; [exists ch; exact Hs|].
+  split; [rewrite delete_notin by exact Hmk; exact Hrep|]. split; reflexivity.
+Qed.
+
+Lemma del_found (m : gmap bytes bytes) s ch k off r l1 l2 :
+  sinvo s ch None -> represents s m ->
+  find s k = Ok (Some (off, List.last l1 0)) -> kheap s !! off = Some r -> k_key r = k ->
+  ch (home s k) = l1 ++ off :: l2 ->
+  exists s', del0 s k = Ok (s', m !! k) /\ Inv s' /\ represents s' (delete k m) /\
+             kt s' = kt s /\ nb (hx s') = nb (hx s).
+Proof using Hk_old Hk_del Hk_fact Hv_del Hfprev Hrelink_orph.
+  clear Hk_new Hv_new Hv_old Hv_fact Hfind Hrelink.
+  intros Hs Hrep Hf Hr Hkey Hch.
+  pose proof Hs as [Hc Hl]. apply core_iff in Hc as (HAk & HAv & Hbm & HP).
+  assert (Hb : home s k < nb (hx s)) by (apply bucket_of_lt, (cp_n HP)).
+  destruct (cp_val HP off r Hr) as [v0 Hv0].
+  assert (Hmk : m !! k = Some v0).
+  { apply (Hrep k v0). exists (k_voff r). split; [exists off, r; auto | exact Hv0]. }
+  unfold del0. rewrite Hf. cbn [rbind].
+  rewrite (read_krec_ok s off r Hr). cbn [rbind].
+  rewrite (read_val_ok s _ v0 Hv0). cbn [rbind].
+  change (bucket s k) with (home s k).
+  destruct (del_unlink m s ch (home s k) off r l1 l2 Hs Hrep Hb Hr Hch)
+    as (s1 & ch1 & Hu & Hs1 & Hoff1 & Hrep1 & Hkt & Hnb).
+  rewrite Hu. cbn [rbind].
+  destruct (del_finish m s1 ch1 off r Hs1 Hoff1 Hrep1) as (vf & kf & Hdv & Hdk & Hinv & Hrepf).
+  rewrite Hdv. cbn [rbind]. rewrite Hdk. cbn [rbind].
+  eexists. split; [rewrite Hmk; reflexivity|]. split; [exact Hinv|].
+  split; [rewrite <- Hkey; exact Hrepf|]. split; [exact Hkt | exact Hnb].
+Qed.
+
+Theorem del_ok : del_stmt.
+Proof using Hk_old Hk_del Hk_fact Hv_del Hfind Hfprev Hrelink_orph.
+  clear Hk_new Hv_new Hv_old Hv_fact Hrelink.
+  intros s0 m k [ch Hs] Hrep Hkwf. rewrite del_del0.
+  apply sinvo_touch in Hs.
+  change (kt s0) with (kt (touch s0)) in *. change (nb (hx s0)) with (nb (hx (touch s0))).
+  change (represents (touch s0) m) in Hrep.
+  revert Hs Hrep Hkwf. generalize (touch s0). clear s0. intros s Hs Hrep Hkwf.
+  destruct (Hfind s ch None k Hs Hkwf) as [(Hf & Hno) | (off & r & l1 & l2 & Hf & Hr & Hkey & Hch)].
+  - intros off Hoff. discriminate.
+  - exact (del_none m s ch k Hs Hrep Hf Hno).
+  - exact (del_found m s ch k off r l1 l2 Hs Hrep Hf Hr Hkey Hch).
 Qed.
 
 End with_hyps.
